@@ -145,13 +145,6 @@ func mustEqCell(fn *ssa.Function, cellStore func(ssa.Instruction) (ssa.Value, bo
 func checkC12(c *Ctx) {
 	r := c.R
 	const rp = "pkg/regserver/regprocessor"
-	isRespField := func(v ssa.Value, base string) bool {
-		o, f, ok := fieldOwner(v)
-		if !ok || o != "proto.C2SWrapper" || f != "RegistrationResponse" {
-			return false
-		}
-		return base == "" || pathOf(v.(*ssa.FieldAddr).X) == base
-	}
 
 	// ---- C12.1
 	r.Rule("C12.1", "client-supplied RegistrationResponse is cleared before processing (both entry points)", 2)
@@ -172,7 +165,14 @@ func checkC12(c *Ctx) {
 		nilEdges := edgesEstablishing(f, func(cnd string, pol bool) bool {
 			return pol && (cnd == "("+orderEq(base+".GetRegistrationResponse()", "nil")+")" || cnd == "("+orderEq(base+".RegistrationResponse", "nil")+")")
 		})
-		for _, call := range callsIn(f, shortIs("processBdReq", "processC2SWrapper")) {
+		fwd := c12Forwarders(c)
+		for _, call := range callsIn(f, func(n string, cc *ssa.CallCommon) bool {
+			if shortIs("processBdReq", "processC2SWrapper")(n, cc) {
+				return true
+			}
+			_, isFwd := fwd[cc.StaticCallee()]
+			return isFwd
+		}) {
 			esc, w := reach(f, nil, isInstr(call.(ssa.Instruction)), isClear, nilEdges)
 			if esc {
 				r.Bad("C12.1", name+": "+calleeShort(call.Common())+" reachable with a client-supplied RegistrationResponse", call.Pos(), fnName(f),
@@ -394,6 +394,8 @@ func checkC12(c *Ctx) {
 	}
 	if f := c.fn("C12.3", rp, "RegProcessor", "RegisterBidirectional"); f != nil {
 		var bd, fw *ssa.Call
+		fwArg := 1
+		fwd := c12Forwarders(c)
 		eachInstr(f, func(in ssa.Instruction) {
 			if call, ok := in.(*ssa.Call); ok {
 				switch calleeShort(&call.Call) {
@@ -401,13 +403,17 @@ func checkC12(c *Ctx) {
 					bd = call
 				case "processC2SWrapper":
 					fw = call
+				default:
+					if k, isFwd := fwd[call.Call.StaticCallee()]; isFwd {
+						fw, fwArg = call, k
+					}
 				}
 			}
 		})
 		if bd == nil || fw == nil {
 			r.Unk("C12.3", "RegisterBidirectional: processBdReq then processC2SWrapper", f.Pos(), fnName(f), "calls not found")
 		} else {
-			okArgs := pathOf(bd.Call.Args[1]) == pathOf(fw.Call.Args[1])
+			okArgs := pathOf(bd.Call.Args[1]) == pathOf(fw.Call.Args[fwArg])
 			order, _ := reach(f, bd, isInstr(fw), nil, nil)
 			restore := false
 			eachInstr(f, func(in ssa.Instruction) {
@@ -631,100 +637,143 @@ func checkC12(c *Ctx) {
 	}
 	if f := c.fn("C12.6", rp, "RegProcessor", "processBdReq"); f != nil {
 		n := 0
-		for _, b := range f.Blocks {
-			if len(b.Instrs) == 0 {
-				continue
+		// the loops are in processBdReq itself, or in a helper of the package that is handed the cumulative weights
+		// (read in the caller's names; a draw that is a parameter of the helper is the caller's argument)
+		type loopHost struct {
+			g    *ssa.Function
+			call *ssa.CallCommon
+		}
+		hosts := []loopHost{{f, nil}}
+		eachInstr(f, func(in ssa.Instruction) {
+			if ci, ok := in.(ssa.CallInstruction); ok {
+				if hf := helperCallee(f, ci.Common()); hf != nil {
+					for _, a := range ci.Common().Args {
+						if strings.Contains(pathOf(a), "CumulativeWeights") {
+							hosts = append(hosts, loopHost{hf, ci.Common()})
+							break
+						}
+					}
+				}
 			}
-			iff, ok := b.Instrs[len(b.Instrs)-1].(*ssa.If)
-			if !ok {
-				continue
-			}
-			cnd, pol := normCond(iff.Cond)
-			if !strings.Contains(cnd, "CumulativeWeights[") || !strings.Contains(cnd, " < ") {
-				continue
-			}
-			i := strings.Index(cnd, " < ")
-			if !strings.Contains(cnd[i:], "CumulativeWeights[") {
-				continue // the weight must be on the right: draw < weight
-			}
-			n++
-			// the element load block = loop body start; matched edge:
-			slot := 0
-			if !pol {
-				slot = 1
-			}
-			matched := b.Succs[slot]
-			// loop header: the block that dominates b and has a back edge from within; find via the IndexAddr's index phi
-			var header *ssa.BasicBlock
-			for _, in := range b.Instrs {
-				if ia, ok := in.(*ssa.IndexAddr); ok && strings.Contains(pathOf(ia.X), "CumulativeWeights") {
-					if bo, ok := ia.Index.(*ssa.BinOp); ok {
-						if ph, ok := bo.X.(*ssa.Phi); ok {
+		})
+		for _, host := range hosts {
+			g := host.g
+			for _, b := range g.Blocks {
+				if len(b.Instrs) == 0 {
+					continue
+				}
+				iff, ok := b.Instrs[len(b.Instrs)-1].(*ssa.If)
+				if !ok {
+					continue
+				}
+				cnd, pol := normCond(iff.Cond)
+				if host.call != nil {
+					cnd = substParams(cnd, g, host.call)
+				}
+				if !strings.Contains(cnd, "CumulativeWeights[") || !strings.Contains(cnd, " < ") {
+					continue
+				}
+				i := strings.Index(cnd, " < ")
+				if !strings.Contains(cnd[i:], "CumulativeWeights[") {
+					continue // the weight must be on the right: draw < weight
+				}
+				n++
+				// the element load block = loop body start; matched edge:
+				slot := 0
+				if !pol {
+					slot = 1
+				}
+				matched := b.Succs[slot]
+				// loop header: the block that dominates b and has a back edge from within; find via the IndexAddr's index phi
+				var header *ssa.BasicBlock
+				for _, in := range b.Instrs {
+					iaPath := ""
+					if ia, ok := in.(*ssa.IndexAddr); ok {
+						iaPath = pathOf(ia.X)
+						if host.call != nil {
+							iaPath = substParams(iaPath, g, host.call)
+						}
+					}
+					if ia, ok := in.(*ssa.IndexAddr); ok && strings.Contains(iaPath, "CumulativeWeights") {
+						if bo, ok := ia.Index.(*ssa.BinOp); ok {
+							if ph, ok := bo.X.(*ssa.Phi); ok {
+								header = ph.Block()
+							}
+						}
+						if ph, ok := ia.Index.(*ssa.Phi); ok {
 							header = ph.Block()
 						}
 					}
-					if ph, ok := ia.Index.(*ssa.Phi); ok {
-						header = ph.Block()
-					}
 				}
-			}
-			which := cnd[i+3:]
-			which = which[:strings.Index(which, "[")]
-			// C12.6b: the draw compared with the cumulative weights is a random value independent of the
-			// draw that gates the override percentage (a shared draw is confined to [0, prcnt) inside the
-			// override branch, so subnets above that cut are never chosen).
-			if bo, ok := iff.Cond.(*ssa.BinOp); ok {
-				draw := bo.X
-				if !strings.Contains(pathOf(bo.Y), "CumulativeWeights[") {
-					draw = bo.Y
-				}
-				drawSrc := randomSources(draw)
-				gateSrc := map[ssa.Value]bool{}
-				for _, b2 := range f.Blocks {
-					if len(b2.Instrs) == 0 {
-						continue
+				which := cnd[i+3:]
+				which = which[:strings.Index(which, "[")]
+				// C12.6b: the draw compared with the cumulative weights is a random value independent of the
+				// draw that gates the override percentage (a shared draw is confined to [0, prcnt) inside the
+				// override branch, so subnets above that cut are never chosen).
+				if bo, ok := iff.Cond.(*ssa.BinOp); ok {
+					draw := bo.X
+					yp := pathOf(bo.Y)
+					if host.call != nil {
+						yp = substParams(yp, g, host.call)
 					}
-					if if2, ok := b2.Instrs[len(b2.Instrs)-1].(*ssa.If); ok {
-						if c2, _ := normCond(if2.Cond); strings.Contains(c2, "RegsToOverride") {
-							if bo2, ok := if2.Cond.(*ssa.BinOp); ok {
-								for k := range randomSources(bo2.X) {
-									gateSrc[k] = true
-								}
-								for k := range randomSources(bo2.Y) {
-									gateSrc[k] = true
+					if !strings.Contains(yp, "CumulativeWeights[") {
+						draw = bo.Y
+					}
+					if pr, isParam := draw.(*ssa.Parameter); isParam && host.call != nil {
+						for pi, q := range g.Params {
+							if q == pr && pi < len(host.call.Args) {
+								draw = host.call.Args[pi]
+							}
+						}
+					}
+					drawSrc := randomSources(draw)
+					gateSrc := map[ssa.Value]bool{}
+					for _, b2 := range f.Blocks {
+						if len(b2.Instrs) == 0 {
+							continue
+						}
+						if if2, ok := b2.Instrs[len(b2.Instrs)-1].(*ssa.If); ok {
+							if c2, _ := normCond(if2.Cond); strings.Contains(c2, "RegsToOverride") {
+								if bo2, ok := if2.Cond.(*ssa.BinOp); ok {
+									for k := range randomSources(bo2.X) {
+										gateSrc[k] = true
+									}
+									for k := range randomSources(bo2.Y) {
+										gateSrc[k] = true
+									}
 								}
 							}
 						}
 					}
-				}
-				shared := false
-				for k := range drawSrc {
-					if gateSrc[k] {
-						shared = true
+					shared := false
+					for k := range drawSrc {
+						if gateSrc[k] {
+							shared = true
+						}
+					}
+					if len(drawSrc) == 0 {
+						r.Bad("C12.6", "processBdReq: the value compared with "+which+" is not a random draw", iff.Cond.Pos(), fnName(f), "the weighted choice compares "+firstN(pathOf(draw), 80)+", which does not come from a random source: the same subnet is always chosen")
+					} else if shared {
+						r.Bad("C12.6", "processBdReq: the draw for "+which+" is the draw that gates the override percentage", iff.Cond.Pos(), fnName(f),
+							"inside the override branch the gating draw is already known to be below the configured percentage, so reusing it for the weighted choice confines it to the low cumulative weights: subnets whose interval starts above that cut are never used")
+					} else {
+						r.OK("C12.6", "processBdReq: the draw for "+which+" is independent of the percentage gate", iff.Cond.Pos(), fmt.Sprintf("%d random source(s), none shared with the gate", len(drawSrc)))
 					}
 				}
-				if len(drawSrc) == 0 {
-					r.Bad("C12.6", "processBdReq: the value compared with "+which+" is not a random draw", iff.Cond.Pos(), fnName(f), "the weighted choice compares "+firstN(pathOf(draw), 80)+", which does not come from a random source: the same subnet is always chosen")
-				} else if shared {
-					r.Bad("C12.6", "processBdReq: the draw for "+which+" is the draw that gates the override percentage", iff.Cond.Pos(), fnName(f),
-						"inside the override branch the gating draw is already known to be below the configured percentage, so reusing it for the weighted choice confines it to the low cumulative weights: subnets whose interval starts above that cut are never used")
-				} else {
-					r.OK("C12.6", "processBdReq: the draw for "+which+" is independent of the percentage gate", iff.Cond.Pos(), fmt.Sprintf("%d random source(s), none shared with the gate", len(drawSrc)))
+				if header == nil {
+					r.Unk("C12.6", "processBdReq: loop over "+which, iff.Pos(), fnName(f), "could not locate the loop header of the weighted choice")
+					continue
 				}
-			}
-			if header == nil {
-				r.Unk("C12.6", "processBdReq: loop over "+which, iff.Pos(), fnName(f), "could not locate the loop header of the weighted choice")
-				continue
-			}
-			back, _ := reachAt(f, matched, func(in ssa.Instruction) bool { return in.Block() == header }, nil, nil)
-			if matched == header {
-				back = true
-			}
-			if back {
-				r.Bad("C12.6", "processBdReq: loop over "+which+" continues after a match", iff.Cond.Pos(), fnName(f),
-					"after `draw < cumulativeWeight[i]` matched, the loop keeps iterating; every later cumulative weight is larger, so the last subnet always wins and the other non-zero-weight subnets are never used")
-			} else {
-				r.OK("C12.6", "processBdReq: loop over "+which+" exits on the first match", iff.Cond.Pos(), "no path from the matched edge back to the loop header")
+				back, _ := reachAt(g, matched, func(in ssa.Instruction) bool { return in.Block() == header }, nil, nil)
+				if matched == header {
+					back = true
+				}
+				if back {
+					r.Bad("C12.6", "processBdReq: loop over "+which+" continues after a match", iff.Cond.Pos(), fnName(f),
+						"after `draw < cumulativeWeight[i]` matched, the loop keeps iterating; every later cumulative weight is larger, so the last subnet always wins and the other non-zero-weight subnets are never used")
+				} else {
+					r.OK("C12.6", "processBdReq: loop over "+which+" exits on the first match", iff.Cond.Pos(), "no path from the matched edge back to the loop header")
+				}
 			}
 		}
 		if n < 2 {
@@ -940,4 +989,47 @@ func sortedCopy(s []string) []string {
 	o := append([]string{}, s...)
 	sort.Strings(o)
 	return o
+}
+
+// c12Forwarders: helpers of the registrar package that hand one of their own parameters, untouched, to
+// processC2SWrapper as the wrapper (a "process and publish" tail shared by the entry points). The value is the
+// position of that parameter in the helper's argument list.
+func c12Forwarders(c *Ctx) map[*ssa.Function]int {
+	out := map[*ssa.Function]int{}
+	for _, h := range c.funcsOfPkgs("pkg/regserver/regprocessor") {
+		if h.Name() == "processC2SWrapper" || h.Name() == "RegisterUnidirectional" || h.Name() == "RegisterBidirectional" {
+			continue
+		}
+		for _, ci := range callsIn(h, shortIs("processC2SWrapper")) {
+			args := ci.Common().Args
+			if len(args) < 2 {
+				continue
+			}
+			for k, q := range h.Params {
+				if args[1] != ssa.Value(q) {
+					continue
+				}
+				// the helper itself does not touch the response cell of the wrapper
+				touched := false
+				eachInstr(h, func(in ssa.Instruction) {
+					if st, ok := in.(*ssa.Store); ok && isRespField(st.Addr, "") {
+						touched = true
+					}
+				})
+				if !touched {
+					out[h] = k
+				}
+			}
+		}
+	}
+	return out
+}
+
+func isRespField(v ssa.Value, base string) bool {
+	o, f, ok := fieldOwner(v)
+	if !ok || o != "proto.C2SWrapper" || f != "RegistrationResponse" {
+		return false
+	}
+	fa, isFA := v.(*ssa.FieldAddr)
+	return base == "" || (isFA && pathOf(fa.X) == base)
 }
